@@ -188,12 +188,48 @@ def showNewRes : NewRes → String
   | .panic => "PANIC"
   | .oof => "OUTOFFUEL"
 
-/-- `tplnew <eofpos>;<toks>;<scanErrs>;<unq>` -/
+/-- scanner errors: `-` or the token indices at which they were reported, `.`-separated -/
+def readIdx (s : String) : Option (List Nat) :=
+  if s = "-" then some [] else mapM? String.toNat? (s.splitOn ".")
+
+/-- `tplnew <eofpos>;<toks>;<scanErrAt>;<unq>` -/
 def handleTplNew (fields : List String) : String :=
   match (fields.headD "").splitOn ";" with
   | [eof, toks, nerr, unq] =>
-    match readToks eof toks, nerr.toNat?, readUnqTab unq with
+    match readToks eof toks, readIdx nerr, readUnqTab unq with
     | some (_, ts), some n, some tab => showNewRes (tplNew tab.toUnq (ts.map (·.tok)) n)
+    | _, _, _ => "bad-input"
+  | _ => "bad-input"
+
+mutual
+def showGoErr : GoErr → String
+  | .plain => "plain"
+  | .scanError => "*scanner.Error"
+  | .scanErrorList => "scanner.ErrorList"
+  | .matcherError => "*matcher.Error"
+  | .errorsList items => "errors.List[" ++ showGoErrs items ++ "]"
+def showGoErrs : List GoErr → String
+  | [] => ""
+  | [e] => showGoErr e
+  | e :: rest => showGoErr e ++ "," ++ showGoErrs rest
+end
+
+def showFromFileRes : FromFileRes → String
+  | .ok => "ok"
+  | .err e => "err " ++ showGoErr e
+  | .panic => "PANIC"
+  | .oof => "OUTOFFUEL"
+
+/-- `tplnewex <eofpos>;<toks>;<scanErrs>;<unq>;<srcOk>`: dynamic type of the error `tpl.NewEx` returns,
+followed by the one `tpl.FromFile` returns (before Relocate). -/
+def handleTplNewEx (fields : List String) : String :=
+  match (fields.headD "").splitOn ";" with
+  | [eof, toks, nerr, unq, srcOk] =>
+    match readToks eof toks, readIdx nerr, readUnqTab unq with
+    | some (_, ts), some n, some tab =>
+      let ts := ts.map (·.tok)
+      showFromFileRes (tplNewEx tab.toUnq (srcOk == "1") ts n) ++ " / " ++
+        showFromFileRes (fromFile tab.toUnq (srcOk == "1") ts n)
     | _, _, _ => "bad-input"
   | _ => "bad-input"
 
